@@ -356,6 +356,8 @@ class ExprMixin:
       return z3.BoolVal(False)
     if isinstance(a, PyStr) and isinstance(b, PyStr):
       return z3.BoolVal(a.s == b.s)
+    if isinstance(a, Vl.Sentinel) or isinstance(b, Vl.Sentinel):
+      return z3.BoolVal(a is b)
     if isinstance(a, Obj) or isinstance(b, Obj):
       if is_ or True:
         return z3.BoolVal(a is b)
@@ -451,6 +453,10 @@ class ExprMixin:
     return self.getattr(recv, e.attr, e)
 
   def getattr(self, recv, attr, node=None):
+    if isinstance(recv, Obj) and attr == '__class__':
+      return ClassRef(recv.module, recv.clsname)
+    if isinstance(recv, ClassRef) and attr == '__name__':
+      return PyStr(recv.name)
     if isinstance(recv, Obj):
       if attr in recv.fields:
         v = recv.fields[attr]
